@@ -11,3 +11,17 @@ open RawPanelVerif.C18
 #print axioms color6_eq
 #print axioms icon_index_guarded
 #print axioms colour_index_pinned_counterexample
+#print axioms renderTile_geo
+#print axioms renderTile_sub
+#print axioms bar_monotone
+#print axioms bar_monotone_hidden
+#print axioms bar_length_monotone
+#print axioms bar_length_in_extent
+#print axioms bar_reversed_range_counterexample
+#print axioms text_on_start
+#print axioms two_texts_on_start
+#print axioms band_centred
+#print axioms centre_ok_fmt10
+#print axioms centre_ok_fmt11
+#print axioms centre_ok_partial
+#print axioms tile_check_partial
